@@ -28,6 +28,7 @@ type Config struct {
 	ForceChoices []int // debugging: replay exactly this choice sequence (one path)
 	ArithFirst bool // arithmetic-heavy harness: queries the incremental core does not decide in 250 ms go straight to cvc5's integer encoding
 	Cvc5Fallback bool // on z3 unknown: decide the query with cvc5 --solve-bv-as-int (linear 64-bit arithmetic)
+	NoRaceCheck bool // disable the happens-before race check of library code
 	MaxTimerFires int // timer-fire events per path
 	PreemptBound int  // >= 0: explore schedules with at most this many preemptions (no sleep sets); -1: all schedules with sleep sets
 }
